@@ -1,4 +1,105 @@
-/-! Line-protocol driver for property C09 (stub until the model exists). -/
+import CprocVerif.Model.Linkage
+import CprocVerif.Spec.Link
+
+/-! Line-protocol driver for property C09 (model of linkage bookkeeping in `decl.c`, and the C11
+spec `Spec/Link.lean`).
+
+A history is a blank-separated list of forms `<scope><kind><storage><def>[@<label>]`:
+* scope   `F` file, `B` block (innermost open block / new function body), `N` nested (new `{`)
+* kind    `o` object (`int x`), `f` function (`int x(void)`)
+* storage `n` none, `s` static, `e` extern; objects also `t` `_Thread_local`, `u` `static _Thread_local`,
+          `v` `extern _Thread_local`; functions also `i` inline, `k` static inline, `j` extern inline
+* def     `1` with initialiser / body, `0` without
+* label   `a` / `b`: `__asm__("<id>_a")`
+
+Input lines:
+* `<history>`        → `error <reason>` or `ok <outcome> main=… locals=… undef=…`
+* `spec <history>`   → `ok <outcome> main=… locals=… undef=…` | `violates <clause>` |
+                       `undefined-behaviour <clause>` | `unspecified <clause>`, then ` dev=<flags>`
+* anything else      → `bad-op`
+
+A symbol is `<name>:<d|f>:<e|l>:<t|->:<z|->` (data/function, export/local, thread, zero-initialised);
+a name is `x` (the identifier), `@a` (label), `L<n>` (`$.Lx.<n>`, the n-th unique local).
+`<outcome>` is the canonical class of the identifier's own symbol: `def export`, `def local`,
+`def export thread`, `def local thread`, `tentative→def …`, `undef-ref`, `none`, `multiple`.
+-/
+
+open CprocVerif.Linkage
+
+def parseForm (w : String) : Option Form :=
+  let (core, lab) := match w.splitOn "@" with
+    | [c] => (c, some none)
+    | [c, "a"] => (c, some (some Label.a))
+    | [c, "b"] => (c, some (some Label.b))
+    | _ => (w, none)
+  match core.toList, lab with
+  | [s, k, st, d], some asm =>
+    let scope := match s with | 'F' => some Scope.file | 'B' => some Scope.block | 'N' => some Scope.nested | _ => none
+    let kind := match k with | 'o' => some Kind.obj | 'f' => some Kind.func | _ => none
+    let hd := match d with | '0' => some false | '1' => some true | _ => none
+    let stf : Option (SC × Bool) := match k, st with
+      | _, 'n' => some (SC.none, false) | _, 's' => some (SC.static, false) | _, 'e' => some (SC.extern, false)
+      | 'o', 't' => some (SC.none, true) | 'o', 'u' => some (SC.static, true) | 'o', 'v' => some (SC.extern, true)
+      | 'f', 'i' => some (SC.none, true) | 'f', 'k' => some (SC.static, true) | 'f', 'j' => some (SC.extern, true)
+      | _, _ => none
+    match scope, kind, hd, stf with
+    | some scope, some kind, some hd, some (sc, flag) =>
+      some { kind := kind, sc := sc, flag := flag, scope := scope, hasDef := hd, asm := asm }
+    | _, _, _, _ => none
+  | _, _ => none
+
+def parseHist (ws : List String) : Option (List Form) :=
+  ws.mapM parseForm
+
+def showName : SymName → String
+  | .plain => "x"
+  | .asm .a => "@a"
+  | .asm .b => "@b"
+  | .loc n => "L" ++ toString n
+
+def showSym (y : Sym) : String :=
+  showName y.name ++ ":" ++ (if y.isFunc then "f" else "d") ++ ":" ++ (if y.exported then "e" else "l")
+    ++ ":" ++ (if y.thread then "t" else "-") ++ ":" ++ (if y.zero then "z" else "-")
+
+def showRef (r : Ref) : String := showName r.name ++ (if r.thread then ":t" else ":-")
+
+def outcome (t : SymTab) : String :=
+  match t.main with
+  | [] => if t.undef.isEmpty then "none" else "undef-ref"
+  | [y] => (if y.zero then "tentative→def " else "def ") ++ (if y.exported then "export" else "local")
+            ++ (if y.thread then " thread" else "")
+  | _ => "multiple"
+
+def showTab (t : SymTab) : String :=
+  outcome t ++ " main=" ++ ",".intercalate (t.main.map showSym) ++ " locals=" ++
+    ",".intercalate (t.locals.map showSym) ++ " undef=" ++ ",".intercalate (t.undef.map showRef)
+
+def showErr (e : Err) : String := (reprStr e).replace "CprocVerif.Linkage.Err." ""
+
+def answer (line : String) : String :=
+  match (line.trimAscii.toString.splitOn " ").filter (· ≠ "") with
+  | "spec" :: ws =>
+    match parseHist ws with
+    | some h => CprocVerif.Link.render h showTab
+    | none => "bad-op"
+  | ws =>
+    match parseHist ws with
+    | some h =>
+      match run h with
+      | .ok s => "ok " ++ showTab (symbols s)
+      | .error e => "error " ++ showErr e
+    | none => "bad-op"
+
+partial def loop (stdin stdout : IO.FS.Stream) : IO Unit := do
+  let line ← stdin.getLine
+  if line.isEmpty then
+    return ()
+  stdout.putStrLn (answer line)
+  loop stdin stdout
+
 def main (_args : List String) : IO UInt32 := do
-  IO.eprintln "drv_c09: no model yet"
-  return 2
+  let stdin ← IO.getStdin
+  let stdout ← IO.getStdout
+  loop stdin stdout
+  stdout.flush
+  return 0
